@@ -7,6 +7,7 @@ CONSTANTS
   FixRecoverStale = TRUE
   FixShortHdr = TRUE
   FixTailOrder = TRUE
+  FreshTmp = TRUE
   KnownRebase = TRUE
   KeepIndex = FALSE
 INVARIANTS NoCrashOK MigrateOK CrashM1 CrashM2 Crash1
